@@ -763,11 +763,18 @@ def rmi_codec(ctx, rule):
     ctx.check(ok, rule, dec.path, "store:6-bit", "the reader stores each digit into bits 6*i .. 6*(i+1)")
     ctx.check(dec.sig is not None and "BitVec<u8>" in dec.sig, rule, dec.path, "BitVec<u8,Lsb0>", "the reader's bit vector has u8 storage (default order Lsb0)")
     rz = q.calls_to(dec, "BitVec::resize")
-    ok = len(rz) == 1 and q.shape(q.arg_expr(dec, rz[0][1], 1)) == "Mul(6,str::len(arg1))"
+    ok = len(rz) == 1 and q.shape(q.arg_expr(dec, rz[0][1], 1)) in ("Mul(6,str::len(arg1))", "Mul(6,slice::len(str::as_bytes(arg1)))")
     ctx.check(ok, rule, dec.path, "resize:6*len", "the reader sizes the bit vector to 6 bits per digit")
     cl = [bi for bi, t in q.calls_to(dec, "BitVec::clear") if q.shape(q.arg_expr(dec, t, 0)) == "arg2"]
     rets = dec.return_blocks()
-    fresh = len(cl) == 1 and len(rz) == 1 and dec.dominates(cl[0], rz[0][0]) and all(dec.dominates(rz[0][0], r) for r in rets) and q.shape(q.arg_expr(dec, rz[0][1], 2)) == "0"
+    # every return is behind the clear, and behind the re-fill unless the line's text is empty (then there is nothing to fill:
+    # an early `return Ok(())` after the clear leaves the vector empty, which is what resize(0) would)
+    def _filled_or_empty(r):
+        if dec.dominates(rz[0][0], r):
+            return True
+        return has_fact(dec, r, {}, ("true", "str::is_empty(arg1)", None), ("true", "slice::is_empty(str::as_bytes(arg1))", None), ("Eq", "0", "str::len(arg1)"), ("Eq", "0", "slice::len(str::as_bytes(arg1))"))
+    rsites = sorted(set(site[0] for _, site, _ in q.def_shapes(dec, 0, {}))) or rets
+    fresh = len(cl) == 1 and len(rz) == 1 and dec.dominates(cl[0], rz[0][0]) and all(dec.dominates(cl[0], r) and _filled_or_empty(r) for r in rsites) and q.shape(q.arg_expr(dec, rz[0][1], 2)) == "0"
     ctx.check(fresh, rule, dec.path, "fresh-per-line",
               "the reused bit vector is cleared and unconditionally re-filled with zero bits for every line (no flag of an earlier line can survive into a later one)")
     # trailing zero trimming in the writer: bits[..last + 1]
